@@ -218,6 +218,13 @@ def TK.syncO (s : TK) (o : Owner) (snap : Snapshot) (oc : Outcome) : TK × SyncR
       (⟨s.t, applyEmit s.K ⟨em.ups, []⟩, if em.ups.isEmpty then s.log else s.log ++ [(o, ⟨em.ups, []⟩)]⟩, .delFailed)
     else (⟨t', applyEmit s.K em, s.log ++ [(o, em)]⟩, .done)
 
+/-- `syncOwner` with `DomainRoutingMap == nil` (no kernel map at all): the snapshot is applied to the tracker,
+nothing is sent. Only tied, no theorem speaks about a generation without a map. -/
+def TK.syncNoMap (s : TK) (o : Owner) (snap : Snapshot) : TK :=
+  match syncOwner s.t o snap with
+  | none => s
+  | some (t', _) => { s with t := t' }
+
 /-! ## histories of `syncOwner` calls and what they denote (specification side) -/
 
 /-- the owner map after `syncOwner o s`: the owner's entry is replaced by `s`, or dropped when `s` has
@@ -315,7 +322,7 @@ structure Entry where
   origDeadline : Nat
   lastSync : Nat        -- `lastRouteSyncNano`
   lastAccess : Nat      -- `lastAccessNano`
-deriving Repr, Inhabited
+deriving DecidableEq, Repr, Inhabited
 
 def Entry.snap (e : Entry) : Snapshot := ⟨e.bitmap, ansIps e.ans⟩
 
@@ -386,7 +393,7 @@ def CState.evict (σ : CState) (key : String) : CState :=
 
 /-- `NeedsBpfUpdate` for an entry created by `__updateDnsCacheDeadline` / restored on reload (its data hash
 equals the marked one, so only the 60 s maximum interval triggers). Bookkeeping prediction only. -/
-def needsUpdate (e : Entry) (now : Nat) : Bool := decide (now - e.lastSync ≥ 60 * sec)
+def needsUpdate (e : Entry) (now : Nat) : Bool := e.lastSync == 0 || decide (now - e.lastSync ≥ 60 * sec)
 
 /-- `triggerBpfUpdateIfNeeded` when it does queue a task: the CAS stamps `lastRouteSyncNano`, the task
 points at the cached object. -/
@@ -466,6 +473,32 @@ def cstep (σ : CState) : COp → CState
       | none => σ) { σ with cache := [], tk := ⟨Tracker.empty, [], σ.tk.log⟩ }
 
 def crun (σ : CState) (ops : List COp) : CState := ops.foldl cstep σ
+
+/-! ### a put whose synchronous publish fails (environment: failing batch syscall) -/
+
+/-- `__updateDnsCacheDeadline` when `cacheAccessCallback` returns an error (the update batch of its
+`syncOwner` failed): the entry has already been stored, tracker and table are untouched, `MarkBpfUpdated` is
+skipped so `lastRouteSyncNano` stays 0 and the next lookup queues a refresh. -/
+def CState.storeUnsynced (σ : CState) (key : String) (e : Entry) : CState :=
+  { σ with nextId := σ.nextId + 1, cache := alInsert key { e with id := σ.nextId, lastSync := 0 } σ.cache }
+
+/-- cache operations plus the failing put. -/
+inductive FOp where
+  | op (o : COp)
+  | putFail (key fqdn : String) (qtype ttl : Nat) (fixedTtl : Option Nat) (bitmap : Bitmap) (ans : List Ans)
+deriving Repr, Inhabited
+
+def cstepF (σ : CState) : FOp → CState
+  | .op o => cstep σ o
+  | .putFail key fqdn qtype ttl fixedTtl bitmap ans =>
+    let k := effKey key fqdn qtype
+    if k = "" then σ else
+    let dl := match fixedTtl with
+      | some f => σ.now + f * sec
+      | none => σ.now + ttl * sec
+    σ.storeUnsynced k ⟨0, bitmap, ans, dl, σ.now + ttl * sec, 0, σ.now⟩
+
+def crunF (σ : CState) (ops : List FOp) : CState := ops.foldl cstepF σ
 
 /-- the same machine with the pre-fix worker (revert witness only; nothing else uses it). -/
 def cstepUnguarded (σ : CState) : COp → CState
